@@ -26,7 +26,9 @@ ASSUMPTIONS = ['in-memory ZooKeeper fake; real filesystem under a temp dir', 'Ev
                'sys.monitoring LINE events as source-free failpoints (statement granularity)']
 BUDGET = {'quick': (22, 20.0), 'thorough': (900, 260.0)}
 REQUIRED_REACH = {'*': ['sync_calls', 'files_written_checked', 'extra_removed', 'outdated_rewritten', 'uptodate_kept',
-                        'crash_views', 'failpoints_raised', 'syscall_boundaries', 'big_manifest_points', 'subsecond_ctime_cases']}
+                        'crash_views', 'failpoints_raised', 'syscall_boundaries', 'big_manifest_points', 'subsecond_ctime_cases',
+                        'service_loop_checks', 'service_loop_evicted_to_empty', 'service_loop_empty_placement_checked',
+                        'legacy_yaml_replica_cases']}
 
 TOOL = 3
 
@@ -44,6 +46,157 @@ def gen_manifest(rng, big=False):
     return man
 
 
+class _Stop(BaseException):
+    pass
+
+
+def service_loop_case(ctx, idx, rng):
+    """(3) the real EventMgr.run() loop with its presence DataWatch and placement ChildrenWatch on the
+    in-memory ZooKeeper; time.sleep (the heartbeat) is rebound to "apply the next scripted change":
+    instances placed (manifest as JSON or as legacy YAML shared by replicas), evicted one by one down
+    to an empty node, presence lost / regained, a start with stale cache files and nothing placed.
+    After every change (watches are delivered synchronously) the cache must mirror the placement."""
+    import time as _time
+    import yaml as _yaml
+    from treadmill import context, eventmgr
+    from treadmill import zknamespace as z
+    from treadmill import zkutils
+    host = 'node1'
+    root = tempfile.mkdtemp(prefix='vf-c12s-')
+    real_sleep = _time.sleep
+    try:
+        srv = zkfake.ZkServer()
+        srv.keep_log = False
+        zk = srv.client('eventmgr')
+        adm = srv.client('admin')
+        adm.ensure_path(z.SCHEDULED)
+        adm.ensure_path(z.SERVER_PRESENCE)
+        adm.ensure_path(z.PLACEMENT)
+        context.GLOBAL.zk._conn = zk       # pylint: disable=protected-access
+        mgr = eventmgr.EventMgr(root)
+        mgr._hostname = host           # pylint: disable=protected-access
+        cache = mgr.tm_env.cache_dir
+        os.makedirs(cache, exist_ok=True)
+        shared = gen_manifest(rng, False)
+        placed = {}           # instance -> expected content
+        counter = [0]
+        steps = rng.randint(8, 16)
+        n_step = [0]
+        log = []
+        stale = []
+        if rng.random() < 0.5:
+            # an agent that restarts with files of instances that are no longer placed here
+            for i in range(rng.randint(1, 3)):
+                n = 'proid.old#%010d' % i
+                stale.append(n)
+                with open(os.path.join(cache, n), 'w') as f:
+                    f.write('old: content\n')
+        start_with_node = rng.random() < 0.7
+        if start_with_node:
+            adm.ensure_path(z.path.placement(host))
+        if rng.random() < 0.7:
+            adm.create(z.path.server_presence(host), b'{}', ephemeral=True)
+
+        def place():
+            counter[0] += 1
+            a = 'proid.web#%010d' % counter[0]
+            yaml_payload = rng.random() < 0.5
+            man = dict(shared) if yaml_payload else gen_manifest(rng, False)
+            if yaml_payload:
+                adm.create(z.path.scheduled(a), _yaml.safe_dump(man, default_flow_style=False).encode())
+            else:
+                zkutils.put(adm, z.path.scheduled(a), man)
+            pdata = rng.choice([{'identity': rng.choice([0, 1, 3]), 'identity_count': 4, 'expires': 1700000000.5 + counter[0]},
+                                {'expires': 1700000000.5 + counter[0]}, {}, None])
+            exp = dict(man)
+            exp['task'] = a[a.index('#') + 1:]
+            if pdata:
+                exp.update(pdata)
+            placed[a] = exp
+            zkutils.put(adm, z.path.placement(host, a), pdata)
+            log.append(('place', a, 'yaml' if yaml_payload else 'json', pdata))
+
+        def evict(a):
+            del placed[a]
+            adm.delete(z.path.placement(host, a))
+            log.append(('evict', a))
+
+        def check(when):
+            ctx.count('service_loop_checks')
+            node = adm.exists(z.path.placement(host)) is not None
+            names = sorted(n for n in os.listdir(cache) if not n.startswith('.'))
+            if not node:
+                return        # the agent has not seen a placement node yet: nothing was synchronised
+            case = dict(case=idx, when=when, log=log[-12:])
+            for n in names:
+                if n not in placed:
+                    ctx.violation('cache-names-unplaced-instance:service-loop%s' % (':nothing-placed' if not placed else ''),
+                                  '%s is in the cache but not placed on the node (%d placed) after %s' % (n, len(placed), when), case=case)
+            for a, exp in placed.items():
+                path = os.path.join(cache, a)
+                if not os.path.exists(path):
+                    ctx.violation('placed-instance-without-cache-file:service-loop', '%s is placed, its manifest exists, no cache file after %s' % (a, when), case=case)
+                    continue
+                with open(path) as f:
+                    got = _yaml.safe_load(f.read())
+                if got != exp:
+                    diff = sorted(k for k in set(got) | set(exp) if got.get(k) != exp.get(k))
+                    ctx.violation('written-manifest-differs:%s' % diff[0], '%s: fields %s differ (file %r, expected %r) after %s' % (
+                        a, diff[:4], {d: got.get(d) for d in diff[:4]}, {d: exp.get(d) for d in diff[:4]}, when), case=case)
+            if not placed:
+                ctx.count('service_loop_empty_placement_checked')
+
+        def sleep_hook(_secs):
+            n_step[0] += 1
+            if n_step[0] > steps:
+                raise _Stop()
+            check('heartbeat %d' % n_step[0])
+            if adm.exists(z.path.placement(host)) is None:
+                if rng.random() < 0.6:
+                    adm.ensure_path(z.path.placement(host))
+                    log.append(('placement-node',))
+                return
+            op = rng.choice(['place', 'place', 'place2', 'evict', 'evict', 'evict-all', 'presence'])
+            if op == 'place':
+                place()
+            elif op == 'place2':
+                place()
+                check('a placement')
+                place()
+            elif op == 'evict' and placed:
+                evict(rng.choice(sorted(placed)))
+            elif op == 'evict-all' and placed:
+                for a in sorted(placed):
+                    evict(a)
+                    check('an eviction')
+                ctx.count('service_loop_evicted_to_empty')
+            elif op == 'presence':
+                if adm.exists(z.path.server_presence(host)):
+                    adm.delete(z.path.server_presence(host))
+                else:
+                    adm.create(z.path.server_presence(host), b'{}', ephemeral=True)
+                log.append(('presence',))
+            check(op)
+
+        _time.sleep = sleep_hook
+        try:
+            mgr.run(once=False)
+        except _Stop:
+            pass
+        except Exception:      # noqa
+            et, ev, tb = sys.exc_info()
+            ctx.violation('exception:%s@run' % et.__name__, str(ev), witness=traceback.format_exc()[-800:], case=dict(case=idx, log=log[-12:]))
+        finally:
+            _time.sleep = real_sleep
+        if stale:
+            ctx.count('service_loop_started_with_stale_files')
+        ctx.count('service_loop_cases')
+        ctx.done(case_desc=('loop', idx, len(log)), nontrivial=False, evals=n_step[0])
+    finally:
+        _time.sleep = real_sleep
+        shutil.rmtree(root, ignore_errors=True)
+
+
 def run(ctx):
     import yaml as _yaml
     from treadmill import eventmgr, fs
@@ -58,6 +211,7 @@ def run(ctx):
             return _yaml.safe_load(f.read())
 
     for idx, rng in ctx.cases():
+        service_loop_case(ctx, idx, ctx.case_rng(idx, 'loop'))
         root = tempfile.mkdtemp(prefix='vf-c12-')
         try:
             srv = zkfake.ZkServer()
@@ -75,16 +229,23 @@ def run(ctx):
             now = _time.time()
             expected_content = {}
             placed, state = [], {}
+            # 1 case in 4: the instances are replicas of one application whose manifest was stored by an
+            # older release as YAML (zkutils.get falls back to YAML): byte-identical payloads
+            shared_yaml = gen_manifest(rng, False) if rng.random() < 0.25 else None
+            if shared_yaml is not None:
+                ctx.count('legacy_yaml_replica_cases')
             for a in apps:
                 kind = rng.choice(['missing', 'missing', 'outdated', 'outdated', 'uptodate', 'uptodate', 'extra', 'no-placement-node', 'no-manifest'])
                 subsecond = rng.random() < 0.5       # placement re-created within the same second as the file
                 big = rng.random() < 0.3
-                man = gen_manifest(rng, big)
+                man = gen_manifest(rng, big) if shared_yaml is None else dict(shared_yaml)
                 pdata = {'identity': rng.choice([None, 0, 0, 1, 3]), 'identity_count': rng.choice([None, 4]),
                          'expires': rng.choice([0, now + 3600.5])}
+                if shared_yaml is not None and rng.random() < 0.4:
+                    pdata = {'expires': pdata['expires']} if rng.random() < 0.5 else {}
                 if rng.random() < 0.1:
                     pdata = None
-                state[a] = dict(kind=kind, big=big)
+                state[a] = dict(kind=kind, big=big and shared_yaml is None)
                 if kind != 'extra':
                     placed.append(a)
                 if kind not in ('no-placement-node', 'extra'):
@@ -92,7 +253,9 @@ def run(ctx):
                     ct = now + 1000 if kind == 'outdated' else now - 1000
                     srv.set_ctime(z.path.placement(host, a), ct * 1000)
                     state[a]['subsecond'] = subsecond and kind in ('outdated', 'uptodate')
-                if kind != 'no-manifest':
+                if kind != 'no-manifest' and shared_yaml is not None:
+                    adm.create(z.path.scheduled(a), _yaml.safe_dump(man, default_flow_style=False).encode())
+                elif kind != 'no-manifest':
                     zkutils.put(adm, z.path.scheduled(a), man)
                 exp = dict(man)
                 exp['task'] = a[a.index('#') + 1:]
